@@ -92,6 +92,15 @@ def run_path(I, st, c, fi, res):
         where = r.where
     except (BreakExc, ContinueExc):
         raise Unsupported("break/continue outside loop")
+    if outcome == "normal" and c.ghost_exit:
+        # ghost assignments executed at normal exit (ghost state lives only in contracts)
+        import ast as _ast
+        for loc, expr in c.ghost_exit:
+            ln = _ast.parse(loc, mode="eval").body
+            ev = specs.eval_spec(I, st, _ast.parse(expr, mode="eval").body, env, fi)
+            ov = specs.eval_spec(I, st, ln.value, env, fi)
+            fty = I.field_type(strip_opt(ov.ty)[1], ln.attr)
+            I.write_field(st, ov, ln.attr, fty, ev)
     if outcome == "normal":
         res.outcomes["normal"] = res.outcomes.get("normal", 0) + 1
         rt = calls.return_type(I, st, fi, c)
@@ -186,5 +195,120 @@ def verify_function(I, c, fi):
     res.inlined = set(I.inlined)
     res.used_contracts = set(I.used_contracts)
     res.drops = set(I.drops)
+    res.str_axioms = I.str_distinct_axioms()
+    return res
+
+
+# =======================================================================================
+# behavioural subtyping: an override's contract refines the base contract used at dynamic call sites
+# =======================================================================================
+def find_base_contract(I, c, fi):
+    """the abstract base contract (if any) that call sites use for this override"""
+    if fi.cls is None:
+        return None, None
+    for anc in fi.cls.mro()[1:]:
+        fm = anc.methods.get(fi.name)
+        if fm is not None:
+            bc = I.db.get(fm.qualname)
+            if bc is not None and bc.abstract:
+                return bc, fm
+    return None, None
+
+
+def run_refinement_path(I, st, c, fi, bc, bfi, res):
+    fr, env = initial_state(I, st, c, fi)
+    short = "%s.refines[%s]" % (I.short(fi), I.short(bfi))
+    for cl in bc.requires:
+        st.assume(specs.eval_clause(I, st, cl, env, bfi))
+    if res.requires_formula is None:
+        res.requires_formula = list(st.pc)
+    for cl in c.requires:
+        g = specs.eval_clause(I, st, cl, env, fi)
+        st.oblige("%s.pre[%s]" % (short, cl.label), g, meta={"kind": "refine_pre", "clause": cl.text, "props": c.props})
+    # frame: every location the override may modify is one the base contract lets it modify
+    sub_locs = calls.modifies_locations(I, st, c, env, c.modifies)
+    base_locs = calls.modifies_locations(I, st, bc, env, bc.modifies)
+    bykey = {}
+    for v, keys in base_locs:
+        for key, _ in keys:
+            bykey.setdefault(key, []).append(v.term)
+    for v, keys in sub_locs:
+        for key, _ in keys:
+            cands = bykey.get(key, [])
+            g = z3.Or(*[v.term == b for b in cands]) if cands else FALSE
+            st.oblige("%s.frame[%s]" % (short, key), g, meta={"kind": "refine_frame", "clause": "modifies of the override is within the base's",
+                                                             "props": c.props})
+    # outcome of the override, by its own contract
+    pre_heap = dict(st.heap)
+    pre_alloc = st.alloc
+    calls.havoc_locations(I, st, sub_locs)
+    exc_keys = list(c.raises.keys())
+    k = st.choose(1 + len(exc_keys), "outcome")
+    st.old_heap, st.old_alloc = pre_heap, pre_alloc
+    if k == 0:
+        res.outcomes["normal"] = res.outcomes.get("normal", 0) + 1
+        rt = calls.return_type(I, st, fi, c)
+        if rt in (None, "NoneT"):
+            result = NONE
+        elif rt == "Any":
+            result = Val("Any", st.fresh(RefS, "res"))
+        else:
+            result = st.fresh_val(rt, "res", assume_alloc=False, finite=False)
+        env2 = dict(env)
+        env2["result"] = result
+        for cl in c.ensures:
+            st.assume(specs.eval_clause(I, st, cl, env2, fi))
+        if not st.feasible():
+            raise PathEnd("override post infeasible")
+        for cl in bc.ensures:
+            g = specs.eval_clause(I, st, cl, env2, bfi)
+            st.oblige("%s.post[%s]" % (short, cl.label), g, meta={"kind": "refine_post", "clause": cl.text, "props": c.props},
+                      assume_after=False)
+    else:
+        key = exc_keys[k - 1]
+        res.outcomes["raise:" + key] = res.outcomes.get("raise:" + key, 0) + 1
+        for cl in c.raises[key]:
+            st.assume(specs.eval_clause(I, st, cl, env, fi))
+        if not st.feasible():
+            raise PathEnd("override exceptional post infeasible")
+        exc = ExcVal(key.rstrip("!"), key.endswith("!"))
+        bkey = match_raises(I, bc, exc)
+        if bkey is None:
+            st.oblige("%s.raises[%s]" % (short, key), FALSE,
+                      meta={"kind": "refine_raises", "clause": "the base contract does not allow %s" % key, "props": c.props},
+                      assume_after=False)
+        else:
+            for cl in bc.raises[bkey]:
+                g = specs.eval_clause(I, st, cl, env, bfi)
+                st.oblige("%s.raises[%s][%s]" % (short, key, cl.label), g,
+                          meta={"kind": "refine_raises", "clause": cl.text, "props": c.props}, assume_after=False)
+
+
+def verify_refinement(I, c, fi, bc, bfi):
+    res = FunctionResult(c.key + "<:" + bc.key)
+    res.sha = fi.sha
+    res.loc = fi.loc
+    t0 = time.time()
+    sink = []
+    worklist = [[]]
+    try:
+        while worklist:
+            trace = worklist.pop()
+            st = State(trace=trace, sink=sink, worklist=worklist, label=res.key)
+            try:
+                run_refinement_path(I, st, c, fi, bc, bfi, res)
+            except PathEnd:
+                pass
+            res.paths += 1
+    except Unsupported as e:
+        res.error = "unsupported: %s" % e
+    except Exception as e:
+        res.error = "crash: %s\n%s" % (e, traceback.format_exc())
+    seen = {}
+    for key, ob in sink:
+        if key not in seen:
+            seen[key] = ob
+    res.obligations = list(seen.values())
+    res.seconds = time.time() - t0
     res.str_axioms = I.str_distinct_axioms()
     return res
